@@ -71,6 +71,25 @@ def coverage(P, R, H):
     R.floor('C17.MPT.1', 2, 'value reads inside section hooks')
 
 
+def hooked_plain_lookup(s):
+    """The one registration that behaves like a lookup: a string with NO default whose node is given a hook on every
+    path before the function returns.  Its value is NULL while the file does not mention it, and since a string that
+    loses its value notifies its hook (C15.GRD.5 keeps that call alive), the removal is heard through the hook."""
+    ev = s.ev
+    if ev.get('callee') != 'conf_register_string' or len(ev['args']) < 4 or const_of(ev['args'][3]) != 0:
+        return False
+    f = s.fn
+    holders = [t for t in f.stores() if t.ev['k'] == 'store' and is_var(t.ev.get('lhs')) and (t.ev.get('rhs') or {}).get('ev') == ev.get('id')]
+    if not holders:
+        return False
+    v = holders[0].ev['lhs']['name']
+
+    def hooked(t):
+        l = t.ev.get('lhs') or {}
+        return t.ev['k'] == 'store' and is_field(l, 'hook') and is_var(root_var(l), v) and const_of(t.ev.get('rhs')) != 0
+    return f.path_avoiding(holders[0], hooked) is None
+
+
 def no_registration_in_hooks(P, R, H):
     """WMC.1: a rebuild hook only looks nodes up.  Registering (conf_register_*) a node while rebuilding
     marks it as owned by the program: it is then kept when a later file drops it, no membership change is
@@ -78,9 +97,9 @@ def no_registration_in_hooks(P, R, H):
     n = 0
     for unit, h in H.items():
         cl = {k: f for k, f in P.closure([h], may=False).items() if f.unit == unit}
-        bad = [s for f in cl.values() for s in f.calls() if (s.ev.get('callee') or '').startswith('conf_register_')]
+        bad = [s for f in cl.values() for s in f.calls() if (s.ev.get('callee') or '').startswith('conf_register_') and not hooked_plain_lookup(s)]
         n += 1
-        R.ob('C17.WMC.1', not bad, bad[0] if bad else h, 'the rebuild of %s only looks configuration nodes up (conf_get_child / iteration); it registers none' % unit, key='no-register:%s' % unit,
+        R.ob('C17.WMC.1', not bad, bad[0] if bad else h, 'the rebuild of %s only looks configuration nodes up (conf_get_child / iteration); it registers none (except a text with no default that is given a hook at once, which notifies when the text goes away)' % unit, key='no-register:%s' % unit,
              detail=[b.loc for b in bad] or None)
     R.floor('C17.WMC.1', 2)
 
